@@ -49,6 +49,10 @@ class AsyncMode(Mode, metaclass=abc.ABCMeta):
         except asyncio.CancelledError:
             pass
 
+        if self._task is not None and self._task is not future:
+            # the mode has been restarted in the meantime. this is the task of the previous run
+            return
+
         # stop mode
         self.stop()
 
